@@ -835,6 +835,8 @@ func main() {
 	ft.WriteString("]\n\nend GoSecs.Gen\n")
 	must(os.WriteFile(filepath.Join(*out, "Facts.lean"), []byte(ft.String()), 0o644))
 
+	must(emitProvenance(*repo, *out)) // C12 ownership tables (provenance.go) -> Provenance.lean
+
 	js, _ := json.MarshalIndent(status, "", " ")
 	must(os.WriteFile(filepath.Join(*out, "status.json"), js, 0o644))
 	bad := 0
